@@ -1,5 +1,12 @@
 """C06 — ACL filtering. impl: acl.compile_acl_text + patching.apply_acl; model: Annet.Acl.compileAcl/applyAcl;
-oracle: sub-tree, idempotence, merge-monotonicity, fatal-iff evaluated on the real functions."""
+oracle: sub-tree, idempotence, merge-monotonicity, fatal-iff evaluated on the real functions.
+
+Glue kinds (harness/c06glue.py): "fglue" drives annet.gen.build_filter_text / build_filter_acl through
+annet.gen._old_new_per_device (Filterer stub, --filter-acl file / directory / stdin, -i / -fp / -frp parts) and states
+'what leaves the glue is ref_filter(t, A) for the requested filter text A, an empty A passes nothing'; "aglue" drives
+RunGeneratorResult.acl_text() / _combine_acl_text over generator ACL texts in the styles generators write them and
+states the merge law and 'equals ref_filter(t, union of the rules)' on apply_acl(t, compile(acl_text()))."""
+import json
 import random
 from collections import OrderedDict as odict
 
@@ -10,7 +17,12 @@ RULE = ("(ACL text(s), vendor, tree, fatal, exclusive): ACL rule trees over the 
         "SMALL ACL SPACE (52 one-rule ACL texts and all 2704 ordered pairs of them as two generators x 191 small trees x "
         "{plain, strict, exclusive} = 1579188 cases) exhaustively in the thorough tier, a seed-chosen slice in the quick tier; "
         "non-trivial = ACL has >=2 rules and the tree >=3 rows of which >=1 passes and >=1 is dropped or errors; "
-        "distinct = distinct case")
+        "distinct = distinct case; plus the GLUE kinds: fglue = (device config, 1-2 synthetic generators, generator ACLs "
+        "on/off, filter request = --filter-acl file | <host>.acl in a directory | stdin text and/or Filterer texts for "
+        "-i/-fp/-frp; requested-and-empty, blank/comment-only, rules with margins/comments/ignore rules/%global children) "
+        "through annet.gen._old_new_per_device, oracle old/new == ref_filter(unfiltered old/new, filter text); aglue = "
+        "(1-3 generator ACL texts in 12 writing styles, tree walking the rule forest) through "
+        "RunGeneratorResult.acl_text() directly or via _old_new_per_device, oracle merge law + ref_filter of the union")
 TRUSTED_BASE = [
     "Lean 4.33 kernel; axioms per theorem listed (subset of propext, Classical.choice, Quot.sound)",
     "CPython re is not modelled; rule rows are matched by Model/Pattern.lean (tied by C07's correspondence), the "
@@ -21,6 +33,11 @@ TRUSTED_BASE = [
 ASSUMPTIONS = [
     "ACL rule rows inside the rule grammar; no ignore ('!') rules (compile_acl_text rejects them unless allow_ignore)",
     "rows non-empty, without annotations (with_annotations=False)",
+    "glue kinds: the first rule line of an ACL text carries the smallest indentation, indentation is consistent (offside), "
+    "no rules below %global / ignore rules, filter parts coming from different sources all start at the left margin; "
+    "ref_filter (own parser + own word matcher) is used where it is unambiguous (no negated rows / rules, no ignore+normal "
+    "or %global+local-with-children competition on one row), elsewhere the glue is compared with "
+    "apply_acl(t, compile_acl_text(dedent(A))) evaluated directly; JSON-fragment filters, acl_safe, annotations are off",
 ]
 
 VENDORS = [("huawei", "undo", False), ("cisco", "no", False), ("juniper", "delete", True), ("arista", "no", False)]
@@ -38,6 +55,37 @@ def setup_worker():
     _SETUP = True
 
 
+# ------------------------------------------------------------------ glue kinds (harness/c06glue.py)
+# signatures, one per mechanism:
+#   filter-glue-empty-filter-passes-lines          a filter was requested, its text holds no rule, rows still leave the glue
+#   filter-glue-differs-from-ref-filter            old/new != ref_filter(unfiltered old/new, requested filter text)
+#   filter-glue-differs-from-apply-acl-of-the-filter-text   same, where ref_filter is not defined (ambiguous rows)
+#   filter-glue-raises-on-a-readable-filter        the filter text compiles, the glue raises
+#   glue-without-acl-and-filter-changes-the-configuration   nothing requested, --no-acl: config is not handed through
+#   acl-text-merge-drops-lines-a-generator-passes  merge law broken AND acl_text()'s rule tree is not the union of the
+#                                                  generators' rule trees (independent reading of both)
+#   acl-text-merge-differs-from-ref-filter-of-the-union     apply_acl(t, compile(acl_text())) != ref_filter(t, union)
+#   acl-text-merge-raises                          every text is an ACL text, the merged one is rejected
+#   apply-acl-differs-from-ref-filter              glue-independent: apply_acl itself differs from the reference
+#   (merge-law losses with a correct merged rule tree keep the signatures of classify_merge_loss)
+GLUE_KINDS = ("fglue", "aglue")
+_LAST = [None, None]        # one-slot cache: impl(), oracle(), requests() of one case follow each other
+
+
+def _glue():
+    from harness import c06glue
+    return c06glue
+
+
+def _glue_impl(case):
+    k = json.dumps(case, sort_keys=True)
+    if _LAST[0] != k:
+        g = _glue()
+        r = g.run_filter_glue(case) if case["kind"] == "fglue" else g.run_acl_glue(case)
+        _LAST[0], _LAST[1] = k, json.loads(json.dumps(r))
+    return _LAST[1]
+
+
 def shards(tier, seed):
     n = 400 if tier == "quick" else 50000
     out = [dict(seed=seed * 1000 + i, n=n) for i in range(16)]
@@ -46,6 +94,10 @@ def shards(tier, seed):
         out += [dict(kind="small", part=(seed * 4 + i) % 1024, parts=1024) for i in range(4)]
     else:
         out += [dict(kind="small", part=i, parts=64) for i in range(64)]
+    # the glue around apply_acl (harness/c06glue.py)
+    nf, na = (120, 400) if tier == "quick" else (1200, 4000)
+    out += [dict(kind="fglue", seed=seed * 1000 + 100 + i, n=nf) for i in range(16)]
+    out += [dict(kind="aglue", seed=seed * 1000 + 200 + i, n=na) for i in range(16)]
     return out
 
 
@@ -171,6 +223,12 @@ def gen(desc):
     if desc.get("kind") == "small":
         yield from small_acl_cases(desc["part"], desc["parts"])
         return
+    if desc.get("kind") in GLUE_KINDS:
+        rng = random.Random(desc["seed"])
+        g = _glue()
+        for _ in range(desc["n"]):
+            yield g.gen_fglue(rng) if desc["kind"] == "fglue" else g.gen_aglue(rng)
+        return
     rng = random.Random(desc["seed"])
     for _ in range(desc["n"]):
         vendor, pre, _jun = rng.choice(VENDORS)
@@ -227,6 +285,8 @@ def run_apply(text, vendor, tree, fatal, exclusive):
 
 def impl(case):
     setup_worker()
+    if case.get("kind") in GLUE_KINDS:
+        return _glue_impl(case)
     text = combine(case["texts"], case["tagged"])
     return run_apply(text, case["vendor"], case["tree"], case["fatal"], case["exclusive"])
 
@@ -245,6 +305,8 @@ def raw_trees(text):
 
 def requests(case):
     setup_worker()
+    if case.get("kind") in GLUE_KINDS:
+        return _glue().requests(case, _glue_impl(case))
     text = combine(case["texts"], case["tagged"])
     try:
         trees = raw_trees(text)
@@ -256,6 +318,8 @@ def requests(case):
 
 
 def model(case, resp):
+    if case.get("kind") in GLUE_KINDS:
+        return _glue().model(case, resp)
     r = resp[0]
     if r.get("grammar") is False:
         return {"skip": True}
@@ -413,6 +477,10 @@ def compiled_flags_check(text, vendor, out):
 
 def oracle(case, r):
     setup_worker()
+    if case.get("kind") == "fglue":
+        return _glue().oracle_fglue(case, r)
+    if case.get("kind") == "aglue":
+        return _glue().oracle_aglue(case, r, classify_merge_loss)
     out = []
     compiled_flags_check(combine(case["texts"], case["tagged"]), case["vendor"], out)
     vendor, tree = case["vendor"], case["tree"]
@@ -464,6 +532,8 @@ def oracle(case, r):
 
 
 def nontrivial(case, r):
+    if case.get("kind") in GLUE_KINDS:
+        return _glue().nontrivial(case, r)
     nrules = sum(len([l for l in t.split("\n") if l.strip()]) for t in case["texts"])
     np_ = len(paths(case["tree"]))
     if nrules < 2 or np_ < 3:
@@ -475,6 +545,8 @@ def nontrivial(case, r):
 
 
 def stats(case, r):
+    if case.get("kind") in GLUE_KINDS:
+        return _glue().stats(case, r)
     lab = ["vendor=" + case["vendor"], "generators=%d" % len(case["texts"]),
            "result=" + ("ok" if "ok" in r else r["err"]),
            "mode=" + ("fatal" if case["fatal"] else "") + ("+excl" if case["exclusive"] else "")]
@@ -488,6 +560,9 @@ def stats(case, r):
 
 
 def shrink_candidates(case):
+    if case.get("kind") in GLUE_KINDS:
+        yield from _glue().shrink_candidates(case)
+        return
     t = case["tree"]
 
     def drops(tree):
